@@ -34,6 +34,7 @@ from vtlengine.duckdb_transpiler.io._time_handling import (
 )
 from vtlengine.duckdb_transpiler.sql import initialize_time_types
 from vtlengine.Exceptions import RunTimeError, SemanticError
+from vtlengine.files.output import format_date_iso8601
 from vtlengine.files.output._time_period_representation import TimePeriodRepresentation
 from vtlengine.Model import Dataset, Scalar
 from vtlengine.Utils._number_config import get_effective_numeric_digits
@@ -593,6 +594,8 @@ def execute_queries(
     # Save scalars to CSV when output_folder is provided
     if output_folder:
         result_scalars = {k: v for k, v in results.items() if isinstance(v, Scalar)}
+        for scalar in result_scalars.values():
+            format_date_iso8601(scalar)
         save_scalars_duckdb(result_scalars, output_folder)
 
     return results
